@@ -3,7 +3,10 @@ package main
 // Monitors, written from the property texts of C01, C02 and C03 against the sorted-slice reference
 // kept by Exec. Keys are compared up to the comparator's equivalence (rank), values exactly.
 
-import "fmt"
+import (
+	"fmt"
+	"sort"
+)
 
 // ---------------------------------------------------------------------------------------------
 // C01
@@ -24,24 +27,45 @@ func (e *Exec) checkRange(op string, rev bool, lo, hi Bnd, ks, vs []int, panicke
 		return
 	}
 	want := e.expect(rev, lo, hi)
-	if d := diffEntries(e.v, ks, vs, want); d != "" {
-		e.failf("c01-wrong-"+op, pr, "%s %s %s: %s (got %d items, ideal answer has %d)", op, lo, hi, d, len(ks), len(want))
+	if d, foreign := e.diffEntries(ks, vs, want); d != "" {
+		e.failf(pick(foreign, "c01-foreign-key-", "c01-wrong-")+op, pr, "%s %s %s: %s (got %d items, ideal answer has %d)", op, lo, hi, d, len(ks), len(want))
 	}
 }
 
-func diffEntries(v Variant, ks, vs []int, want []entry) string {
+// diffEntries compares what an iteration yielded with the ideal answer: keys up to the comparator's
+// equivalence, values exactly. Which of several equivalent key objects the collection keeps is left open
+// (DESIGN 8a) - but the key of an entry is a key that was PUT: a yielded key that is equivalent to the
+// entry's but is none of the keys put under that class since the class was last absent (the caller's
+// bound, say) is not the key of any entry an ideal map with this history holds (foreign = true).
+func (e *Exec) diffEntries(ks, vs []int, want []entry) (what string, foreign bool) {
+	v := e.v
 	for i := range ks {
 		if i >= len(want) {
-			return fmt.Sprintf("item %d is (%d,%d), the ideal answer ends before it", i, ks[i], vs[i])
+			return fmt.Sprintf("item %d is (%d,%d), the ideal answer ends before it", i, ks[i], vs[i]), false
 		}
 		if ks[i] == 0 || v.rank(ks[i]) != v.rank(want[i].k) || vs[i] != want[i].v {
-			return fmt.Sprintf("item %d is (%d,%d), ideal answer has (%d,%d)", i, ks[i], vs[i], want[i].k, want[i].v)
+			return fmt.Sprintf("item %d is (%d,%d), ideal answer has (%d,%d)", i, ks[i], vs[i], want[i].k, want[i].v), false
+		}
+		if !e.wasPut(ks[i]) {
+			return fmt.Sprintf("item %d has key %d: equivalent to the entry's key, but the keys put under this class are %v - the collection never held this key object", i, ks[i], e.putKeys(ks[i])), true
 		}
 	}
 	if len(ks) < len(want) {
-		return fmt.Sprintf("ends after %d items, ideal answer continues with (%d,%d)", len(ks), want[len(ks)].k, want[len(ks)].v)
+		return fmt.Sprintf("ends after %d items, ideal answer continues with (%d,%d)", len(ks), want[len(ks)].k, want[len(ks)].v), false
 	}
-	return ""
+	return "", false
+}
+
+// wasPut: k is one of the keys put under its equivalence class since the class was last absent.
+func (e *Exec) wasPut(k int) bool { return e.reps[e.v.rank(k)][k] }
+
+func (e *Exec) putKeys(k int) []int {
+	var out []int
+	for x := range e.reps[e.v.rank(k)] {
+		out = append(out, x)
+	}
+	sort.Ints(out)
+	return out
 }
 
 // judgeLen / judgeExtreme: the Len, First and Last clauses (explicit ops and the periodic sweep).
@@ -72,6 +96,8 @@ func (e *Exec) judgeExtreme(op string, k, v int, panicked, spun bool) {
 		}
 		if k == 0 || e.v.rank(k) != e.v.rank(w.k) || v != w.v {
 			e.failf("c01-wrong-"+op, e.params(op), "%s returned (%d,%d), the extreme entry of the ideal collection is (%d,%d)", op, k, v, w.k, w.v)
+		} else if !e.wasPut(k) {
+			e.failf("c01-foreign-key-"+op, e.params(op), "%s returned key %d: equivalent to the extreme entry's key, but the keys put under this class are %v", op, k, e.putKeys(k))
 		}
 	}
 }
@@ -93,8 +119,8 @@ func (e *Exec) checkFull() {
 	ks, vs, p, spun := e.drain(func() nextFn { return e.c.Iterate() })
 	if p {
 		e.panicFail("c01", "iterate", spun)
-	} else if d := diffEntries(e.v, ks, vs, e.ref); d != "" {
-		e.failf("c01-wrong-iterate", e.params("iterate"), "Iterate(): %s (got %d items, the ideal collection holds %d)", d, len(ks), len(e.ref))
+	} else if d, foreign := e.diffEntries(ks, vs, e.ref); d != "" {
+		e.failf(pick(foreign, "c01-foreign-key-", "c01-wrong-")+"iterate", e.params("iterate"), "Iterate(): %s (got %d items, the ideal collection holds %d)", d, len(ks), len(e.ref))
 	}
 	u := Bnd{Kind: 'u'}
 	for _, rev := range []bool{false, true} {
